@@ -67,6 +67,7 @@ def fault_catalogue():
         "stderr-exit0": {"behaviour": "stderr", "reply": VALID_REPLY},
         "stderr-binary": {"behaviour": "stderrbin", "reply": VALID_REPLY},
         "no-read-fail": {"behaviour": "noreadfail", "reply": b""},
+        "no-read-exit0": {"behaviour": "noread", "reply": b""},     # exits 0 without reading and without replying
     }
     for name, reply in corrupt_replies().items():
         cat["reply-" + name] = {"behaviour": "ok", "reply": reply}
@@ -252,9 +253,11 @@ def build_cases(tier, rng):
         cases.append((["ok"], m, False))
         cases.append((["ok", "ok"], m, False))
     # closes stdin early / never reads, with a request larger than the pipe buffer
-    for f in ("no-read-fail", "exit1", "sigkill", "reply-empty", "missing-executable"):
+    for f in ("no-read-fail", "no-read-exit0", "exit1", "sigkill", "reply-empty", "missing-executable"):
         cases.append(([f, "ok"], "given", True))
         cases.append((["ok", f], "cwd", True))
+        cases.append(([f, "ok", "ok"], "cwd", True))
+        cases.append(([f, f, "ok"], "given", True))
     for _ in range(600 if tier == "quick" else 6000):
         trip = [rng.choice(names + ["ok", "ok"]) for _ in range(3)]
         cases.append((trip, rng.choice(OUT_MODES), rng.random() < 0.1))
